@@ -34,6 +34,7 @@ def plan(tier, seed):
     for y in (2021, 2022, 2023):
         for g in (fams[:5], fams[5:]):
             sp.append({'kind': 'returns', 'year': y, 'families': g, 'n': n})
+        sp.append({'kind': 'returns', 'year': y, 'directed': True, 'families': [], 'n': 1})
         sp.append({'kind': 'adversarial', 'year': y})
         sp.append({'kind': 'faults', 'year': y})
     return sp
@@ -247,8 +248,9 @@ def run_shard(spec, tier, seed):
     res = Result()
     year = spec['year']
     if spec['kind'] == 'returns':
-        for fam in spec['families']:
-            for p in scen.personas(seed, year, fam, spec['n']):
+        todo = list(scen.directed_personas(year, seed, 1)) if spec.get('directed') else [(fam, p) for fam in spec['families'] for p in scen.personas(seed, year, fam, spec['n'])]
+        for fam, p in todo:
+            if True:
                 out = scen.solve_persona(p)
                 if out.exc is not None or out.ret is not True:
                     res.count('unsolved_skipped')
